@@ -65,6 +65,41 @@ def loop_headers(fi):
     return out
 
 
+def binding_kinds(fn):
+    """how each own local is FIRST bound: 'for' (loop / comprehension-free for target), 'with', 'except', 'import', 'def', 'assign'"""
+    kinds = {}
+    def note(nm, k):
+        if nm and nm not in kinds:
+            kinds[nm] = k
+    def targets(t, k):
+        for n in ast.walk(t):
+            if isinstance(n, ast.Name) and isinstance(n.ctx, (ast.Store, ast.Del)):
+                note(n.id, k)
+    def rec(n):
+        if isinstance(n, (ast.For, ast.AsyncFor)):
+            targets(n.target, "for")
+        elif isinstance(n, (ast.With, ast.AsyncWith)):
+            for it in n.items:
+                if it.optional_vars is not None:
+                    targets(it.optional_vars, "with")
+        elif isinstance(n, ast.ExceptHandler):
+            note(n.name, "except")
+        elif isinstance(n, ast.alias):
+            note((n.asname or n.name).split(".")[0], "import")
+        elif isinstance(n, ast.Name) and isinstance(n.ctx, (ast.Store, ast.Del)):
+            note(n.id, "assign")
+        for ch in ast.iter_child_nodes(n):
+            if isinstance(ch, (ast.FunctionDef, ast.AsyncFunctionDef, ast.ClassDef)):
+                note(ch.name, "def")
+                continue
+            if isinstance(ch, ast.Lambda):
+                continue
+            rec(ch)
+    for st in fn.body:
+        rec(st)
+    return kinds
+
+
 def write_locals_lock():
     """record the local names and the loop headers of every function of the package (PYVC_WRITE_LOCK=1, unchanged tree)"""
     lock = {}
@@ -76,6 +111,7 @@ def write_locals_lock():
                 lock[f"{m.name}.{q}"] = own_locals(fi.node)
                 lock[f"loops:{m.name}.{q}"] = loop_headers(fi)
                 lock[f"hash:{m.name}.{q}"] = fi.source_hash()
+                lock[f"kinds:{m.name}.{q}"] = binding_kinds(fi.node)
     json.dump(lock, open(LOCALS_LOCK_PATH, "w"), indent=0, sort_keys=True)
     return len(lock)
 
@@ -132,11 +168,26 @@ def alpha_normalise(name, fn):
     cur = own_locals(fn)
     new_names = [c for c in cur if c not in old]
     gone = [o for o in old if o not in cur]
-    if not new_names or len(new_names) != len(gone):
+    if not new_names or not gone:
         return
-    mapping = dict(zip(new_names, gone))
+    if len(new_names) == len(gone):
+        mapping = dict(zip(new_names, gone))
+    else:
+        # a renaming PLUS new helper locals (or dropped ones): pair the vanished names with the new ones that are first bound
+        # the same way (loop target with loop target, ...), in order - only when that is unambiguous for every vanished name
+        old_kinds = LOCALS_LOCK.get("kinds:" + name)
+        if not old_kinds:
+            return
+        cur_kinds = binding_kinds(fn)
+        mapping = {}
+        for k in set(old_kinds.get(g) for g in gone):
+            g_k = [g for g in gone if old_kinds.get(g) == k]
+            n_k = [n_ for n_ in new_names if cur_kinds.get(n_) == k]
+            if k is None or len(g_k) != len(n_k):
+                return
+            mapping.update(zip(n_k, g_k))
     used = {n.id for n in ast.walk(fn) if isinstance(n, ast.Name)} | {a.arg for a in ast.walk(fn) if isinstance(a, ast.arg)}
-    if set(gone) & used or _binds_any(fn, set(new_names) | set(gone)):
+    if set(gone) & used or _binds_any(fn, set(mapping) | set(gone)):
         return          # would capture another variable: leave the code alone (contracts will report a lost anchor)
     for n in ast.walk(fn):
         if isinstance(n, ast.Name) and n.id in mapping:
